@@ -60,6 +60,7 @@ type OpCase struct {
 	Init   []bool   `json:"init,omitempty"`  // per input: supply as initializer (model routes)
 	Trail  bool     `json:"trail,omitempty"` // drop trailing absent inputs instead of empty names
 	OutNm  []string `json:"out_names,omitempty"`
+	Dyn    bool     `json:"dyn,omitempty"` // model routes: declare every graph-input axis symbolic instead of fixed
 }
 
 func NodeForCase(c *OpCase) *onnx.NodeProto {
@@ -200,7 +201,11 @@ func SingleNodeModel(c *OpCase) ([]byte, map[string]*ref.T, []string) {
 			g.Initializer = append(g.Initializer, TensorProto(name, t, "raw"))
 			continue
 		}
-		g.Input = append(g.Input, ValueInfo(name, t.DT, FixedDims(t.Shape)))
+		if c.Dyn {
+			g.Input = append(g.Input, ValueInfo(name, t.DT, SymbolicDims(len(t.Shape), name+"_d")))
+		} else {
+			g.Input = append(g.Input, ValueInfo(name, t.DT, FixedDims(t.Shape)))
+		}
 		feed[name] = t
 	}
 	var outNames []string
